@@ -9,7 +9,7 @@ body = s[s.index("/-- every make"):s.index("end Vflow.Gen.Sites")]
 open(os.path.join(root, "lean/Vflow/Spec/Sites.lean"), "w").write('''/-!
 # Reviewed site inventories (committed by hand; see tools/snapshot_sites.py)
 
-`allocSites`: every make / new / append of the decoder packages. Reviewed for C02: the only
+`allocSites`: every make / new / append / `&T{…}` composite literal (one fixed-size struct) of the decoder packages. Reviewed for C02: the only
 allocations sized by a wire-derived value are `make([]byte, ipLen)` (4 or 16, validated),
 `make([]byte, sh.HeaderLength+tmp)` (capped by the 1500-octet header limit), `make([]byte, l-8)`
 (validated to 16 or 28 since the F5 repair) and `make([]byte, 3)`; every `append` adds one element
@@ -38,7 +38,7 @@ means variable length for an element of any type) / `len8 == 255` are `dataLen`;
 `Version != …` / `Count < 1 || Count > 30` / `expectedLen > remainingLen` are the header validations; the sFlow
 sample / record loops and format switches are `Sflow.samples` / `flowRecords` / `counterRecords`;
 `HeaderLength > 1500`, `l != 16 && l != 28` are the F-series repairs' guards; of the F19 repairs, `len(sh.Header) > 0` is
-`Sflow.readHdr`, `d != nil` the `Option.map` in `flowRecord`'s raw-header arm, `rTypeLength != 16 && rTypeLength != 28`
+`Sflow.readHdr`, (`d != nil` of the raw-header arm is gone with F33: the record is always stored) `rTypeLength != 16 && rTypeLength != 28`
 with its `continue` the extended-router skip of `flowRecord` (the `buf[i]` of `FlowSample.unmarshal` index a fixed
 3-octet buffer, the third `b[12]` of `decodeTCP` comes after the 20-octet test); the dissector length tests are the
 guards proved sufficient in `Props/C01Sflow`; of these, `hlen < IPv4HLen` is the lower bound in `Packet.ihlOctets` and
